@@ -1,9 +1,9 @@
 package main
 
 import (
-	"golang.org/x/tools/go/ssa"
 	"fmt"
 	"go/types"
+	"golang.org/x/tools/go/ssa"
 	"strings"
 )
 
